@@ -143,6 +143,7 @@ def run(repo, chk):
     chk.not_decided += ["per-call delivery across populations of instances", "user-defined __eq__/__hash__ behaviour (only whether ptera invokes them on a receiver)"]
     chk.assumptions += ["Python semantics: dict membership hashes its key and falls back to ==; tuples hash/compare element-wise"]
     chk.rule("R13.1", "identity, not equality: the receiver of a bound-method selector never reaches hash() or an equality/membership comparison", 1)
+    chk.rule("R13.4", "the receiver constraint covers every event of the activation: nothing is reported before the receiver parameter, or an absent constrained capture fails the check", 1)
     chk.rule("R13.2", "the receiver constraint is attached to the first parameter of the resolved function as named in its signature", 2)
     chk.rule("R13.3", "symbol resolution: __wrapped__ chain until a tooled function, property.fget, dotted attribute paths; only MethodType gets a receiver constraint", 6)
 
@@ -218,6 +219,33 @@ def run(repo, chk):
                        f"`{norm(cmp)}` in {q} is only evaluated for plain values (else-branch of the isinstance(..., {wrapper}) test); "
                        "comparing the identity wrapper with == would ask the captured object's __eq__")
 
+    # R13.4 the receiver constraint can only be enforced once the receiver parameter has been reported
+    from ..xform import query as Q
+    from ..xform.terms import Ident, Raise, Star, Node as TNode
+    cls_, H, stats = Q.templates(repo, chk.tier)
+    before = set()
+    for p in H.get("visit_FunctionDef", []):
+        if isinstance(p.template, Raise):
+            continue
+        seen_param = False
+        for x in Q.walk(p.template) if hasattr(Q, "walk") else []:
+            pass
+        from ..xform.terms import walk as twalk
+        for x in twalk(p.template):
+            if Q.is_interact(x):
+                ix = Q.Interact(x)
+                s_ = ix.symname
+                if isinstance(s_, Ident) and s_.path.startswith("node.args."):
+                    seen_param = True
+                elif not seen_param:
+                    before.add("#enter" if s_ == "#enter" else "externals" if isinstance(s_, Ident) and s_.path == "external[*]" else
+                               "closure variables" if isinstance(s_, Ident) and s_.path == "free[*]" else repr(s_))
+    cc = repo.func("selector.Selector.check_captures")
+    skips_absent = any(isinstance(n, ast.If) and isinstance(n.test, ast.Compare) and isinstance(n.test.ops[0], ast.In) and norm(n.test.left).endswith(".capture")
+                       for n in ast.walk(cc.node))
+    chk.ob("R13.4", "prologue:interactions-before-receiver-parameter", not (before and skips_absent), "ptera/transform.py (visit_FunctionDef) + ptera/selector.py (check_captures)",
+           f"the generated prologue reports {sorted(before)} before the parameters, and check_captures lets a constraint pass while its variable (the receiver) is not captured yet: "
+           "`obj.meth > G` (G a global read by the method) and `obj.meth > #enter` fire for every instance and carry no receiver")
     # R13.2
     t = norm(rs.node)
     sel_defs = [n for n in walk_local(rs.node) if isinstance(n, ast.Assign) and any(is_name(x, "selfname") for x in n.targets)]
